@@ -2056,6 +2056,7 @@ func (x *TX) inlineHelper(c *ssa.Call, callee *ssa.Function, args []*Term, plain
 	// accounted for by the effect closure / own() of the caller)
 	cx := x.p.tx(callee)
 	var ret *ssa.Return
+	var moreSucc []*ssa.Return // further success exits: the value is a phi over all of them
 	keepErr := false
 	if !branching && len(callee.Blocks) == 1 {
 		ret = rets[0]
@@ -2091,10 +2092,11 @@ func (x *TX) inlineHelper(c *ssa.Call, callee *ssa.Function, args []*Term, plain
 				return nil
 			}
 		}
-		if len(succ) != 1 {
+		if len(succ) == 0 {
 			return nil
 		}
 		ret = succ[0]
+		moreSucc = succ[1:]
 		if nErr > 0 {
 			if c == nil || len(ret.Results) < 2 || !valueUsesBehindErrCheck(c, commaOK) {
 				return nil
@@ -2109,6 +2111,13 @@ func (x *TX) inlineHelper(c *ssa.Call, callee *ssa.Function, args []*Term, plain
 			continue
 		}
 		t := substTerm(cx.Of(rv, ret), args)
+		if len(moreSucc) > 0 {
+			alts := []*Term{t}
+			for _, r2 := range moreSucc {
+				alts = append(alts, substTerm(cx.Of(r2.Results[i], r2), args))
+			}
+			t = phiOf(alts)
+		}
 		if t.hasUnknown() {
 			return nil
 		}
@@ -2218,15 +2227,42 @@ func valueUsesBehindErrCheck(c *ssa.Call, commaOK bool) bool {
 	if okSucc == nil {
 		return false
 	}
+	behind := func(r ssa.Instruction) bool {
+		return r.Block() == okSucc || okSucc.Dominates(r.Block())
+	}
 	for _, v := range vals {
 		if refs := v.Referrers(); refs != nil {
 			for _, r := range *refs {
 				if _, dbg := r.(*ssa.DebugRef); dbg {
 					continue
 				}
-				if r.Block() != okSucc && !okSucc.Dominates(r.Block()) {
-					return false
+				if behind(r) {
+					continue
 				}
+				// `x, err := h()` where x is kept in a local variable: the spill happens before
+				// the test; what matters is where the variable is read
+				if st, ok := r.(*ssa.Store); ok && st.Val == ssa.Value(v) {
+					if a, ok := st.Addr.(*ssa.Alloc); ok && !a.Heap {
+						okAll := true
+						if arefs := a.Referrers(); arefs != nil {
+							for _, ar := range *arefs {
+								if ar == ssa.Instruction(st) {
+									continue
+								}
+								if _, dbg := ar.(*ssa.DebugRef); dbg {
+									continue
+								}
+								if !behind(ar) {
+									okAll = false
+								}
+							}
+						}
+						if okAll {
+							continue
+						}
+					}
+				}
+				return false
 			}
 		}
 	}
